@@ -80,6 +80,8 @@ func runRenderHalf(ctx *core.Ctx) {
 	}
 }
 
+var renderSeq int
+
 func replayRender(ctx *core.Ctx, pc *posCase) {
 	files := []core.File{{Name: "entry.soy", Text: strings.Join(pc.Entry, "\n") + "\n"}, {Name: "lib.soy", Text: strings.Join(pc.Lib, "\n") + "\n"}}
 	feat := fmt.Sprintf("w1=%v,w2=%v,fail=%v,depth=%v,call=%v", pc.D["w1"], pc.D["w2"], pc.D["f"], pc.D["depth"], pc.D["shape"])
@@ -104,6 +106,18 @@ func replayRender(ctx *core.Ctx, pc *posCase) {
 	for _, l := range pc.Allowed {
 		allowed[l] = true
 	}
+	// file names are labels: the error must name the entry file exactly as it was
+	// given, whatever it looks like as a path (one form per layout, by rotation)
+	renderSeq++
+	forms := []string{"%s", "./views/%s", "views//%s", "views/shared/../%s", "/abs/%s", "a/./%s", "..\\w\\%s", "sp ace/%s"}
+	form := forms[renderSeq%len(forms)]
+	for i := range files {
+		files[i].Name = fmt.Sprintf(form, files[i].Name)
+	}
+	wantFile := fmt.Sprintf(form, pc.File)
+	if form != "%s" {
+		feat += ",file-name-form=" + strings.ReplaceAll(form, "%s", "F")
+	}
 	ctx.AddEvals(1)
 	rep := map[string]interface{}{"half": "render", "files": files, "allowedLines": pc.Allowed, "desc": pc.D, "case": pc}
 	comp, err, _ := core.Compile(files, nil)
@@ -127,9 +141,9 @@ func replayRender(ctx *core.Ctx, pc *posCase) {
 	}
 	rep["file"], rep["line"] = fp.File(), fp.Line()
 	switch {
-	case fp.File() != pc.File:
+	case fp.File() != wantFile:
 		ctx.Violation(core.Sig{Family: "render-error-position", Feature: "wrong-file," + feat},
-			fmt.Sprintf("render error names file %q, the entry template is defined in %q: %s", fp.File(), pc.File, res.Err), rep)
+			fmt.Sprintf("render error names file %q, the entry template is defined in %q: %s", fp.File(), wantFile, res.Err), rep)
 	case !allowed[fp.Line()]:
 		kind := "line-off-path"
 		if fp.Line() >= pc.Lo && fp.Line() <= pc.Hi {
